@@ -4,6 +4,7 @@ package pfcpiface
 
 import (
 	"fmt"
+	"google.golang.org/grpc/codes"
 	"net"
 	"runtime"
 	"sort"
@@ -393,14 +394,24 @@ func minInt(a, b int) int {
 }
 
 func c06EndToEnd(res *vResult) {
+	c06EndToEndOn(res, false)
+	c06EndToEndOn(res, true)
+}
+
+// c06EndToEndOn: on UP4 a third of the Session Deletions is refused by the switch (injected write failure): the session
+// stays, and so does its address - it must not be handed to anybody else, and the repeated deletion must succeed.
+func c06EndToEndOn(res *vResult, up4 bool) {
 	idx := 30000000
+	if up4 {
+		idx++
+	}
 	if !vEnv.mine(idx) {
 		return
 	}
-	res.begin(idx, "c06 end-to-end", nil)
+	res.begin(idx, fmt.Sprintf("c06 end-to-end up4=%v", up4), nil)
 	cidr := "10.88.0.0/29"
 	valid := c06Usable(cidr)
-	o := vDefaultOpts(false, vEnv.addr(1))
+	o := vDefaultOpts(up4, vEnv.addr(1))
 	o.UEAlloc, o.UEPool = true, cidr
 	a, err := vStartAgent(o)
 	if err != nil {
@@ -425,13 +436,23 @@ func c06EndToEnd(res *vResult) {
 			}
 			sort.Slice(ks, func(i, j int) bool { return ks[i] < ks[j] })
 			k := ks[rng.Intn(len(ks))]
+			refuse := up4 && rng.Intn(3) == 0
+			if refuse {
+				a.p4.armFaults(vP4Fault{FailRPC: map[int]codes.Code{1: codes.Internal}})
+			}
 			m := c01Request(p, p.deletion(seq, k), seq)
+			if refuse {
+				a.p4.armFaults(vP4Fault{})
+				res.event("e2e_deletions_refused_by_the_switch", 1)
+			}
 			if m != nil && vDecodeReply(m).Cause == ie.CauseRequestAccepted {
 				delete(held, k)
+			} else if m != nil && !refuse {
+				res.violate("C06.R4", "e2e-deletion-rejected", fmt.Sprintf("Session Deletion Request for the live session %#x was rejected with cause %d (up4=%v) although the datapath refused nothing", k, vDecodeReply(m).Cause, up4), nil)
 			}
 			continue
 		}
-		if len(held) > 0 && rng.Intn(4) == 0 {
+		if !up4 && len(held) > 0 && rng.Intn(4) == 0 {
 			// a live session is modified: its PDRs are refreshed with the assigned address by value, or its downlink PDR
 			// (the one that asked for the address) is removed. The session keeps its address either way.
 			var ks []uint64
@@ -497,7 +518,10 @@ func c06EndToEnd(res *vResult) {
 		}
 		held[up] = got
 		upTEID[up] = upTEIDNext
-		res.distinct("e2e/" + got)
+		res.distinct(fmt.Sprintf("e2e/up4=%v/%s", up4, got))
+	}
+	if up4 {
+		a.p4.takeC16()
 	}
 	res.eval(1)
 }
